@@ -27,6 +27,7 @@ pub struct Case {
 pub const F_ANSI: &str = "C07-ansi-underscore-identifier";
 pub const F_ORDER: &str = "C05-result-column-order-differs-from-frame";
 pub const F_BARE_EXCLUDE: &str = "C05-exclusion-by-bare-name-after-split";
+pub const F_SORT_HELPER: &str = "C05-wildcard-sort-helper-kept-with-exclude";
 
 pub fn schema_for(db: &Db) -> Schema {
     schema_of(db, false)
@@ -341,6 +342,20 @@ pub fn check(case: &Case, known: &Known, mode: Mode, hazard: bool) -> Outcome {
                 );
                 if order_only && known.is_open(F_ORDER) {
                     o.verdict = Verdict::Known(F_ORDER.into(), format!("frame {:?} vs result {:?}", want, got));
+                }
+                // recorded finding: a computed sort key that is still in effect at the end of a
+                // wildcard query stays in the result also where EXCLUDE exists (it is needed by the
+                // final ORDER BY and is not excluded from `*`)
+                if !arity_ok && HAS_EXCLUDE.contains(dn) && got.len() > want.len() && known.is_open(F_SORT_HELPER) {
+                    let extra: Vec<&String> = got.iter().flatten().filter(|g| !want.iter().flatten().any(|w| w == *g)).collect();
+                    let order_by = sql.rsplit("ORDER BY").next().unwrap_or("");
+                    if !extra.is_empty()
+                        && extra.len() == got.len() - want.len()
+                        && sql.contains("ORDER BY")
+                        && extra.iter().all(|e| e.starts_with("_expr_") && order_by.contains(e.as_str()))
+                    {
+                        o.verdict = Verdict::Known(F_SORT_HELPER.into(), format!("sort helper {:?} stays in the result", extra));
+                    }
                 }
                 // recorded finding: after a sub-query split the exclusion is re-emitted as an
                 // unqualified `* EXCLUDE (n)`, which also removes the other relation's column n
